@@ -155,6 +155,9 @@ def choose_dispatch(eng, desc: Desc, spec: Spec, candidates=None):
             op = ready[0]
         elif policy == "reverse":
             op = ready[-1]
+        elif policy == "longfirst":
+            long_ = [o for o in ready if len(desc.jobs[desc.job_of[o]]) > 1]
+            op = (long_ or ready)[-1]
         else:   # roundrobin: the next job after the one dispatched last
             last = desc.job_of[spec.history[-1][0]] if spec.history else -1
             later = [o for o in ready if desc.job_of[o] > last]
